@@ -1471,3 +1471,140 @@ def rule_m6(prog, rep, units, rid='M6'):
                         rep.violation(rid, f, x.get('_line'), 'free-moved:%s' % canon(a),
                                       'free(%s): %s holds an allocation but is advanced at line %s before it is freed - free() then '
                                       'receives a pointer into the middle of the block' % (canon(a), canon(a), moved[0].line))
+
+
+def rule_a7(prog, rep, units, rid='A7'):
+    """An allocation failure stays visible: on a path on which errno was set to ENOMEM, no later store gives errno another
+    value before the function returns (e.g. a trailing `if (!found) errno = ENOENT;` that also swallows the failure path) -
+    the caller would take the failure for the ordinary negative outcome (end of a walk, key not found)."""
+    rep.rule(rid, 'an ENOMEM outcome is not overwritten: after errno = ENOMEM no path stores another value to errno before returning')
+    for rel in units:
+        for f in sorted(prog.funcs_in(rel), key=lambda x: x.line or 0):
+            if f.body is None:
+                continue
+
+            def errno_store(n):
+                """value stored to errno by this node: 'ENOMEM', 'other', or None"""
+                if not isinstance(n.ast, dict) or n.kind == 'macro':
+                    return None
+                out = None
+                for x in walk(n.ast):
+                    if x.get('kind') == 'BinaryOperator' and x.get('opcode') == '=' and '__errno_location' in canon(children(x)[0]):
+                        v = int_value_(children(x)[1])
+                        out = 'ENOMEM' if v == 12 else 'other'
+                return out
+            stores = [(n, errno_store(n)) for n in f.cfg.nodes]
+            if not any(k == 'ENOMEM' for (_n, k) in stores):
+                continue
+
+            def transfer(n, st):
+                k = errno_store(n)
+                if k == 'ENOMEM':
+                    return frozenset({('nomem', n.line)})
+                if k == 'other' and st:
+                    hits.append((n.line, sorted(st)[0][1]))
+                    return frozenset()
+                return st
+            hits = []
+            propagate(f, frozenset(), transfer)
+            rep.instance(rid)
+            rep.oblige(rid, not hits, {'function': f.name, 'enomem_stores': sum(1 for (_n, k) in stores if k == 'ENOMEM')})
+            for (line, src) in sorted(set(hits)):
+                rep.violation(rid, f, line, 'errno-overwrite:%s' % src,
+                              'errno set to ENOMEM at line %s is overwritten at line %s on the same path: the allocation failure is '
+                              'reported to the caller as the ordinary negative outcome' % (src, line))
+
+
+def rule_a8(prog, rep, units, rid='A8'):
+    """Constructors: the object's method table is filled field by field.  Handing the half-built object to a function that
+    dispatches through one of its method fields (`obj->clear(obj)`) before that field was assigned calls a NULL function
+    pointer - typically the destructor reused on an allocation-failure exit."""
+    rep.rule(rid, 'in a constructor the object is not handed to a function that dispatches through one of its method fields before '
+                  'that field has been assigned (e.g. the destructor called on an early failure exit)')
+    # methods dispatched through a parameter, per function (transitive)
+    uses = {}
+    for f in prog.funcs.values():
+        if f.body is None:
+            continue
+        u = {}
+        for x in walk(f.body):
+            if x.get('kind') == 'CallExpr':
+                c = strip(children(x)[0])
+                if c.get('kind') == 'MemberExpr' and c.get('isArrow'):
+                    b = strip(children(c)[0])
+                    if b.get('kind') == 'DeclRefExpr' and (b.get('_ref') or ('',))[0] == 'param':
+                        u.setdefault(b['_ref'][3], set()).add(c.get('name'))
+        uses[f.key] = u
+    changed = True
+    rounds = 0
+    while changed and rounds < 5:
+        changed = False
+        rounds += 1
+        for f in prog.funcs.values():
+            if f.body is None:
+                continue
+            for x in walk(f.body):
+                if x.get('kind') != 'CallExpr':
+                    continue
+                for g in prog.callees(f.unit, x):
+                    gu = uses.get(getattr(g, 'key', None))
+                    if not gu:
+                        continue
+                    for i, a in enumerate(children(x)[1:]):
+                        sa = strip(a)
+                        if i in gu and sa.get('kind') == 'DeclRefExpr' and (sa.get('_ref') or ('',))[0] == 'param':
+                            cur = uses[f.key].setdefault(sa['_ref'][3], set())
+                            if not gu[i] <= cur:
+                                cur |= gu[i]
+                                changed = True
+    for rel in units:
+        for f in sorted(prog.funcs_in(rel), key=lambda x: x.line or 0):
+            if f.body is None:
+                continue
+            # a constructor: assigns function addresses to fields of a local object
+            objs = {}
+            for x in walk(f.body):
+                if x.get('kind') == 'BinaryOperator' and x.get('opcode') == '=':
+                    l, r = strip(children(x)[0]), strip(children(x)[1])
+                    if l.get('kind') == 'MemberExpr' and l.get('isArrow') and r.get('kind') == 'DeclRefExpr' and (r.get('_ref') or ('',))[0] == 'fn':
+                        b = strip(children(l)[0])
+                        if b.get('kind') == 'DeclRefExpr' and (b.get('_ref') or ('',))[0] == 'local':
+                            objs.setdefault(b['_ref'][2], set()).add(l.get('name'))
+            if not objs:
+                continue
+            hits = []
+
+            def transfer(n, st):
+                if not isinstance(n.ast, dict) or n.kind == 'macro':
+                    return st
+                s = set(st)
+                for ev in node_events(n):
+                    if ev[0] == 'assign':
+                        l = strip(ev[1])
+                        if l.get('kind') == 'MemberExpr' and l.get('isArrow') and canon(children(l)[0]) in objs:
+                            s.add((canon(children(l)[0]), l.get('name')))
+                    elif ev[0] == 'call':
+                        call = ev[1]
+                        c0 = strip(children(call)[0])
+                        # direct dispatch through the object itself
+                        if c0.get('kind') == 'MemberExpr' and c0.get('isArrow') and canon(children(c0)[0]) in objs:
+                            if (canon(children(c0)[0]), c0.get('name')) not in s:
+                                hits.append((call.get('_line'), canon(children(c0)[0]), c0.get('name'), None))
+                        for g in prog.callees(f.unit, call):
+                            gu = uses.get(getattr(g, 'key', None))
+                            if not gu:
+                                continue
+                            for i, a in enumerate(children(call)[1:]):
+                                o = canon(strip(a))
+                                if i in gu and o in objs:
+                                    missing = sorted(m for m in gu[i] if m in objs[o] and (o, m) not in s)
+                                    if missing:
+                                        hits.append((call.get('_line'), o, missing[0], g.name))
+                return frozenset(s)
+            propagate(f, frozenset(), transfer)
+            rep.instance(rid)
+            rep.oblige(rid, not hits, {'constructor': f.name, 'objects': sorted(objs)})
+            for (line, o, m, gname) in sorted(set(hits)):
+                rep.violation(rid, f, line, 'early-dispatch:%s' % m,
+                              '%s: %s is %s on a path on which %s->%s has not been assigned yet: a NULL function pointer is called'
+                              % (f.name, o, ('handed to %s(), which calls %s->%s()' % (gname, o, m)) if gname else 'used to dispatch', o, m))
